@@ -1,0 +1,14 @@
+//go:build verif
+
+package eventlogger
+
+import "context"
+
+// VerifHook, when set, is called at the protocol steps of graph.process.
+var VerifHook func(ctx context.Context, point string)
+
+func verifPoint(ctx context.Context, point string) {
+	if h := VerifHook; h != nil {
+		h(ctx, point)
+	}
+}
